@@ -246,7 +246,7 @@ static bool env_check(const EState &s, const std::string &spec, const std::strin
       }
       for (auto &kv : seen) if (kv.second != 1) { vp::viol("separate_domain.iteration:duplicate", spec, ctx); ok = false; }
       if (seen.size() != r.m.size()) { vp::viol("separate_domain.iteration:missing-binding", spec, ctx); ok = false; }
-      if (!r.m.empty() && e.size() != r.m.size()) { vp::viol("separate_domain.size:wrong", spec, ctx); ok = false; }
+      if (!r.m.empty() && !e.is_top() && e.size() != r.m.size()) { vp::viol("separate_domain.size:wrong", spec, ctx); ok = false; }
     }
   }
   for (int g = 0; g < 2; g++) {
@@ -467,6 +467,61 @@ static void set_dfs(const SState &s, const std::vector<SOp> &ops, int depth, int
 
 // ---- pair tables: every pair of environments with <= 3 bindings (every tree
 // shape a binary merge can meet) x every binary operation, pointwise oracle
+// ---- large environments: project / forget of key VECTORS in several orders --------------------
+// separate_domain::project switches strategy with the size of the environment and the share of
+// kept keys, and both project and forget take an unordered vector of keys: environments with up
+// to 8 bindings x every subset of keys x three orders of the vector, against the std::map model.
+static void env_vectors(size_t ks, uint64_t &caseno) {
+  std::vector<ull> allk = KEYS;
+  allk.insert(allk.end(), FRESH.begin(), FRESH.end());
+  std::sort(allk.begin(), allk.end());
+  allk.erase(std::unique(allk.begin(), allk.end()), allk.end());
+  if (allk.size() > 8) allk.resize(8);
+  size_t n = allk.size();
+  for (unsigned bound = 0; bound < (1u << n); bound++) {
+    if (!vp::mine(caseno++)) continue;
+    if (__builtin_popcount(bound) < 4 && bound != 0) continue; // small environments are covered by the histories
+    env_t base;
+    RefEnv rbase;
+    for (size_t i = 0; i < n; i++)
+      if (bound & (1u << i)) {
+        itv_t v = VALS[i % 4];
+        base.set(Key(allk[i]), v);
+        rbase.set(allk[i], v);
+      }
+    for (unsigned keepm = 0; keepm < (1u << n); keepm++)
+      for (int order = 0; order < 3; order++) {
+        std::vector<size_t> idx;
+        for (size_t i = 0; i < n; i++)
+          if (keepm & (1u << i)) idx.push_back(i);
+        if (order == 1) std::reverse(idx.begin(), idx.end());
+        if (order == 2 && idx.size() > 1) std::rotate(idx.begin(), idx.begin() + idx.size() / 2, idx.end());
+        if (order > 0 && idx.size() < 2) continue;
+        std::vector<Key> keys;
+        for (size_t i : idx) keys.push_back(Key(allk[i]));
+        for (int which = 0; which < 2; which++) { // 0: project, 1: forget
+          std::string spec = "envvec:" + std::to_string(ks) + ":" + std::to_string(bound) + ":" + std::to_string(keepm) + ":" + std::to_string(order) + ":" + std::to_string(which);
+          vp::set_case(spec);
+          EState st;
+          st.e[0] = base;
+          st.r[0] = rbase;
+          if (which == 0) {
+            st.e[0].project(keys);
+            for (auto it = st.r[0].m.begin(); it != st.r[0].m.end();)
+              if (!(keepm & (1u << (std::find(allk.begin(), allk.end(), it->first) - allk.begin())))) it = st.r[0].m.erase(it); else ++it;
+          } else {
+            for (auto &k : keys) st.e[0] -= k; // separate_domain has no vector forget: one key at a time, in that order
+            for (size_t i : idx) st.r[0].m.erase(allk[i]);
+          }
+          st.e[1] = st.e[0];
+          st.r[1] = st.r[0];
+          g_states++;
+          env_check(st, spec, show_env(base) + (which == 0 ? " project " : " forget ") + "keys in order #" + std::to_string(order) + " mask " + std::to_string(keepm));
+        }
+      }
+  }
+}
+
 static void env_pairs(size_t ks, uint64_t &caseno) {
   struct E { env_t e; RefEnv r; };
   std::vector<E> pool;
@@ -599,9 +654,9 @@ int main(int argc, char **argv) {
     if (!rp.empty()) {
       auto f = vp::split(rp, ':');
       if ((size_t)atoi(f[1].c_str()) != ks) continue;
-      if (f[0] == "envpair" || f[0] == "setpair") {
+      if (f[0] == "envpair" || f[0] == "setpair" || f[0] == "envvec") {
         uint64_t caseno = ks;
-        if (f[0] == "envpair") env_pairs(ks, caseno); else set_pairs(ks, caseno);
+        if (f[0] == "envpair") env_pairs(ks, caseno); else if (f[0] == "envvec") env_vectors(ks, caseno); else set_pairs(ks, caseno);
         continue;
       }
       std::string h;
@@ -628,6 +683,7 @@ int main(int argc, char **argv) {
       uint64_t caseno = ks;
       env_pairs(ks, caseno);
       set_pairs(ks, caseno);
+      env_vectors(ks, caseno);
     }
     // the first step is the unit of slicing
     {
